@@ -154,7 +154,7 @@ def graph_ids_of_raw(snap):
         for n, props in p["nodes"]:
             for k, v in props:
                 if k == "GraphID":
-                    yield v
+                    yield canon(v)
 
 
 # ------------------------------------------------------------------------------------------
